@@ -12,24 +12,29 @@ expiry.  `isMateMove b mv`: the successor has no legal move and its side to move
 -/
 import ChessVerif.Props.C12.Basic
 import ChessVerif.Proofs.Search
+import ChessVerif.Proofs.Insufficient
 
 namespace Chess.Props.C12
 open Chess Chess.Spec Chess.Engine Chess.Proofs.Search
 
 /-- **found**: if the side to move can mate in one and the time limit lets the first pass finish,
-the search returns a mating move together with that side's mate-in-one score.
+the search returns a mating move together with that side's mate-in-one score — every well-formed
+board, repetition history, expiry index, stale `max_depth`.
 
-Side condition `drawnCapture … = false` on the witness: `alphabeta` scores a *capture that leaves
-insufficient material* (K v K, K+N v K, K+B v K) as a draw before it looks for mate.  No such move
-can mate in chess (a lone minor piece cannot mate a bare king); that chess fact is not proved here,
-so the theorem is stated for a mating move that is not of this kind — this is the only gap between
-this theorem and the property as worded (`mate1_found_partial` in the sense of DESIGN.md). -/
+(`alphabeta` scores a capture that leaves insufficient material as a draw *before* it looks for
+mate; `insufficient_not_mate` below shows such a move never mates, so no side condition is needed.) -/
 theorem mate1_found (b : Board) (hwf : b.WF = true) (tf : ThreeFold) (k prev : Nat)
     (hf : firstPassFinished b tf k = true)
-    (hm : ∃ mv ∈ Props.C10.movesOf (MoveGen.legals b), isMateMove b mv = true ∧ drawnCapture b mv = false) :
+    (hm : ∃ mv ∈ Props.C10.movesOf (MoveGen.legals b), isMateMove b mv = true) :
     ∃ mv, (search b tf k prev).move = some mv ∧ isMateMove b mv = true ∧
       (search b tf k prev).score = mateInOne b.turn :=
-  Proofs.Search.mate1_found b hwf tf k prev hf hm
+  Proofs.Insufficient.mate1_found_full b hwf tf k prev hf hm
+
+/-- the chess fact used: with insufficient material in the engine's sense (no queen, rook or pawn,
+at most one minor piece on the board) nobody is checkmated -/
+theorem insufficient_not_mate (b : Board) (h : b.WF = true) (hi : insufficientMaterial b = true) :
+    ((MoveGen.legals b).isEmpty && b.inCheck) = false :=
+  Proofs.Insufficient.insufficient_not_mate b h hi
 
 /-- **truthful**: a mate-in-one score for the side to move is only ever reported together with a
 move that mates — every board, history, expiry index -/
